@@ -23,6 +23,14 @@ Definition src_params : option params :=
   end.
 Definition all_sets : list fset := scalar_sets ++ aggregate_sets.
 
+(* a boolean fact about the current parameters; false when a constant is missing *)
+Definition on_src (Q : params -> bool) : bool := match src_params with Some P => Q P | None => false end.
+Lemma on_src_true : forall Q, on_src Q = true -> exists P, src_params = Some P /\ Q P = true.
+Proof.
+  intros Q H. unfold on_src in H. destruct src_params as [P|]; [|discriminate].
+  exists P. split; [reflexivity|exact H].
+Qed.
+
 (* ---------------------------------------------------------------- enumeration lemmas *)
 Lemma in_type_range : forall P t, t < p_ntypes P -> In t (type_range P).
 Proof.
@@ -140,38 +148,60 @@ Qed.
 
 (* the sweep over the CURRENT tables: every scalar and aggregate function set, every tuple of at most three
    inputs (27 type ids + the 7 integer-literal classes) *)
-Definition check_src : bool :=
-  match src_params with Some P => check_sets P all_sets | None => false end.
+Definition check_src : bool := on_src (fun P => check_sets P all_sets).
 
-Lemma check_src_true : check_src = true.
+Lemma check_src_true : on_src (fun P => check_sets P all_sets) = true.
 Proof. vm_compute. reflexivity. Qed.
 
 Theorem resolution_deterministic :
   exists P, src_params = Some P /\
   forall f, In f all_sets -> forall have, (List.length have <= 3)%nat -> Forall (wf_input P) have -> agree P f have.
 Proof.
-  pose proof check_src_true as H. unfold check_src in H.
-  destruct src_params as [P|] eqn:E; [|discriminate].
-  exists P. split; [reflexivity|]. apply check_sets_sound. exact H.
+  destruct (on_src_true _ check_src_true) as [P [E H]].
+  exists P. split; [exact E|]. apply check_sets_sound. exact H.
 Qed.
 
 (* the hypotheses are satisfiable: the sweep is not empty *)
+Definition wf_input_b (P : params) (i : input) : bool :=
+  (i_ty i <? p_ntypes P) &&
+  match i_lit i with
+  | None => true
+  | Some w => ((i_ty i =? p_i32 P) && negb (lw_rank w =? 3)) || (i_ty i =? p_i64 P)
+  end.
+Lemma wf_input_b_sound : forall P i, wf_input_b P i = true -> wf_input P i.
+Proof.
+  intros P [t l] H. unfold wf_input_b in H. cbn [i_ty i_lit] in H.
+  apply andb_true_iff in H. destruct H as [H1 H2]. split; cbn [i_ty i_lit].
+  - apply N.ltb_lt. exact H1.
+  - destruct l as [w|]; [|exact I]. apply orb_true_iff in H2. destruct H2 as [H2|H2].
+    + left. apply andb_true_iff in H2. destruct H2 as [Ha Hb]. split; [apply N.eqb_eq; exact Ha|].
+      intros Hw. subst w. cbn in Hb. discriminate.
+    + right. apply N.eqb_eq. exact H2.
+Qed.
+
+Definition no_set : fset := {| f_name := ""; f_sigs := [] |}.
+Definition ex_have : list input := [{| i_ty := 4; i_lit := None |}; {| i_ty := 5; i_lit := None |}].
+Definition nonempty_b (P : params) : bool :=
+  Nat.leb 1000 (List.length (tuples 2 (all_inputs P))) && Nat.leb 100 (List.length all_sets) &&
+  forallb (wf_input_b P) ex_have && Nat.leb 2 (List.length (find_candidates P ex_have (f_sigs (nth 0 all_sets no_set)))).
+Lemma nonempty_src : on_src nonempty_b = true.
+Proof. vm_compute. reflexivity. Qed.
+
 Example resolution_sweep_nonempty :
   exists P, src_params = Some P /\ (1000 <= List.length (tuples 2 (all_inputs P)))%nat /\
             (100 <= List.length all_sets)%nat /\
             exists f have, In f all_sets /\ List.length have = 2%nat /\ Forall (wf_input P) have /\
                            (2 <= List.length (find_candidates P have (f_sigs f)))%nat.
 Proof.
-  destruct src_params as [P|] eqn:E; [|vm_compute in E; discriminate].
-  exists P. split; [reflexivity|].
-  vm_compute in E. injection E as E. subst P.
-  split; [vm_compute; lia|]. split; [vm_compute; lia|].
-  exists (nth 0 all_sets {| f_name := ""; f_sigs := [] |}).
-  exists [{| i_ty := 4; i_lit := None |}; {| i_ty := 5; i_lit := None |}].
-  split; [vm_compute; left; reflexivity|]. split; [reflexivity|].
-  split.
-  - repeat constructor; cbn; lia.
-  - vm_compute. lia.
+  destruct (on_src_true _ nonempty_src) as [P [E H]].
+  exists P. split; [exact E|]. unfold nonempty_b in H.
+  apply andb_true_iff in H. destruct H as [H H4]. apply andb_true_iff in H. destruct H as [H H3].
+  apply andb_true_iff in H. destruct H as [H1 H2].
+  apply Nat.leb_le in H1, H2, H4.
+  split; [exact H1|]. split; [exact H2|].
+  exists (nth 0 all_sets no_set). exists ex_have.
+  split; [apply nth_In; lia|]. split; [reflexivity|]. split; [|exact H4].
+  apply Forall_forall. intros i Hi. apply wf_input_b_sound. rewrite forallb_forall in H3. apply H3. exact Hi.
 Qed.
 
 (* ---------------------------------------------------------------- exact match *)
@@ -271,14 +301,17 @@ Proof.
   cbn [repeat]. rewrite total_cons. rewrite IH. cbn [cast_score]. lia.
 Qed.
 
+Definition ex_have2 : list input := [{| i_ty := 16; i_lit := None |}; {| i_ty := 16; i_lit := None |}].
+Lemma exact_src : on_src (fun P => match find_exact P (f_sigs (nth 0 all_sets no_set)) (map i_ty ex_have2) with
+                                    | Some _ => true | None => false end) = true.
+Proof. vm_compute. reflexivity. Qed.
 Example exact_hypothesis_satisfiable :
-  exists P f have i, src_params = Some P /\ In f all_sets /\ find_exact P (f_sigs f) (map i_ty have) = Some i.
+  exists P f have i, src_params = Some P /\ find_exact P (f_sigs f) (map i_ty have) = Some i.
 Proof.
-  destruct src_params as [P|] eqn:E; [|vm_compute in E; discriminate].
-  exists P. exists (nth 0 all_sets {| f_name := ""; f_sigs := [] |}).
-  exists [{| i_ty := 16; i_lit := None |}; {| i_ty := 16; i_lit := None |}].
-  vm_compute in E. injection E as E. subst P.
-  eexists. split; [reflexivity|]. split; [vm_compute; left; reflexivity|]. vm_compute. reflexivity.
+  destruct (on_src_true _ exact_src) as [P [E H]]. cbv beta in H.
+  exists P. exists (nth 0 all_sets no_set). exists ex_have2.
+  destruct (find_exact P (f_sigs (nth 0 all_sets no_set)) (map i_ty ex_have2)) as [i|]; [|discriminate].
+  exists i. split; [exact E|reflexivity].
 Qed.
 
 (* ---------------------------------------------------------------- set operations *)
@@ -338,24 +371,27 @@ Proof.
       * cbn [nth_error] in Hl, Hr, Ho. eapply Hnth; eassumption.
 Qed.
 
+Definition ex_l : list dtype := [{| d_id := 6; d_meta := [] |}].
+Definition ex_r : list dtype := [{| d_id := 7; d_meta := [] |}].
+Lemma union_src : on_src (fun P => match unify_cols P ex_l ex_r with Some [(_, SLeft)] => true | _ => false end) = true.
+Proof. vm_compute. reflexivity. Qed.
 Example union_hypothesis_satisfiable :
-  exists P ls rs out, src_params = Some P /\ unify_cols P ls rs = Some out /\
-                      exists o, In o out /\ snd o = SLeft.
+  exists P ls rs out, src_params = Some P /\ unify_cols P ls rs = Some out /                      exists o, In o out /\ snd o = SLeft.
 Proof.
-  destruct src_params as [P|] eqn:E; [|vm_compute in E; discriminate].
-  vm_compute in E. injection E as E. subst P.
-  eexists. exists [{| d_id := 6; d_meta := [] |}]. exists [{| d_id := 7; d_meta := [] |}].
-  eexists. split; [reflexivity|]. split; [vm_compute; reflexivity|].
-  eexists. split; [left; reflexivity|]. reflexivity.
+  destruct (on_src_true _ union_src) as [P [E H]]. cbv beta in H.
+  exists P. exists ex_l. exists ex_r.
+  destruct (unify_cols P ex_l ex_r) as [[|[t sd] [|y ys]]|]; try discriminate.
+  destruct sd; try discriminate.
+  eexists. split; [exact E|]. split; [reflexivity|]. eexists. split; [left; reflexivity|]. reflexivity.
 Qed.
 
 (* FULL strength would also demand equal column counts.  The binder does not check them (it zips): *)
 Theorem union_arity_checked_refuted :
   exists P ls rs out, src_params = Some P /\ List.length ls <> List.length rs /\ unify_cols P ls rs = Some out.
 Proof.
-  destruct src_params as [P|] eqn:E; [|vm_compute in E; discriminate].
+  destruct (on_src_true _ check_src_true) as [P [E _]].
   exists P. exists [{| d_id := 6; d_meta := [] |}].
   exists [{| d_id := 6; d_meta := [] |}; {| d_id := 6; d_meta := [] |}].
-  eexists. split; [reflexivity|]. split; [cbn [List.length]; lia|].
-  cbn [unify_cols]. unfold unify1. cbn [dtype_eqb d_id d_meta zs_eqb]. rewrite N.eqb_refl. cbn [andb]. reflexivity.
+  eexists. split; [exact E|]. split; [cbn [List.length]; lia|].
+  vm_compute. reflexivity.
 Qed.
